@@ -12,10 +12,14 @@ import (
 	commonmodels "github.com/lindb/common/models"
 
 	"github.com/lindb/lindb/aggregation/function"
+	"github.com/lindb/lindb/internal/concurrent"
+	"github.com/lindb/lindb/internal/linmetric"
+	"github.com/lindb/lindb/metrics"
 	"github.com/lindb/lindb/models"
 	protoCommonV1 "github.com/lindb/lindb/proto/gen/v1/common"
 	"github.com/lindb/lindb/query"
 	querycontext "github.com/lindb/lindb/query/context"
+	"github.com/lindb/lindb/rpc"
 	"github.com/lindb/lindb/series/field"
 
 	"github.com/lindb/lindb/zzverif/internal/core"
@@ -48,8 +52,25 @@ func (m *lbTaskMgr) Receive(resp *protoCommonV1.TaskResponse, from string) error
 	return nil
 }
 
+// realTaskMgr is lindb's own task manager (query.NewTaskManager over a real worker pool): responses
+// given to its Receive are looked up by request id and handled by pool workers.
+var (
+	realTaskMgrOnce sync.Once
+	realTaskMgrInst query.TaskManager
+)
+
+func realTaskMgr() query.TaskManager {
+	realTaskMgrOnce.Do(func() {
+		pool := concurrent.NewPool("lvh-c12-task-pool", 16, time.Minute,
+			metrics.NewConcurrentStatistics("lvh-c12-task-pool", linmetric.BrokerRegistry))
+		realTaskMgrInst = query.NewTaskManager(pool, linmetric.BrokerRegistry)
+	})
+	return realTaskMgrInst
+}
+
 type lbTransport struct {
-	mgr    *lbTaskMgr
+	recv   rpc.TaskReceiver
+	reqID  string
 	resp   map[string]*protoCommonV1.TaskResponse
 	inline map[string]bool // this target's request is answered inside SendRequest
 	rng    *rand.Rand
@@ -59,10 +80,17 @@ type lbTransport struct {
 	wg     sync.WaitGroup
 }
 
-func (t *lbTransport) SendRequest(target string, _ *protoCommonV1.TaskRequest) error {
+func (t *lbTransport) answer(target string) *protoCommonV1.TaskResponse {
+	r := *t.resp[target]
+	r.RequestID = t.reqID
+	return &r
+}
+
+func (t *lbTransport) SendRequest(target string, req *protoCommonV1.TaskRequest) error {
+	t.reqID = req.RequestID
 	t.sent = append(t.sent, target)
 	if t.inline[target] {
-		_ = t.mgr.Receive(t.resp[target], target)
+		_ = t.recv.Receive(t.answer(target), target)
 	} else {
 		t.later = append(t.later, target)
 	}
@@ -74,11 +102,11 @@ func (t *lbTransport) SendRequest(target string, _ *protoCommonV1.TaskRequest) e
 			defer t.wg.Done()
 			// "later" = after the search pipeline's completion callback (it removes the pipeline
 			// from the pipeline manager right after ctx.Complete)
-			for i := 0; i < 20000 && query.GetPipelineManager().GetPipeline(t.mgr.reqID) != nil; i++ {
+			for i := 0; i < 20000 && query.GetPipelineManager().GetPipeline(t.reqID) != nil; i++ {
 				time.Sleep(100 * time.Microsecond)
 			}
 			for _, tg := range order {
-				_ = t.mgr.Receive(t.resp[tg], tg)
+				_ = t.recv.Receive(t.answer(tg), tg)
 			}
 		}()
 	}
@@ -89,12 +117,21 @@ func (t *lbTransport) SendResponse(string, *protoCommonV1.TaskResponse) error { 
 
 // searchLoopback runs the real MetricDataSearch over the given per-target responses.
 func searchLoopback(w *World, q *QueryDef, resp map[string]*protoCommonV1.TaskResponse, inline map[string]bool, rng *rand.Rand) *Result {
+	return searchLoopbackVia(w, q, resp, inline, rng, false)
+}
+
+// searchLoopbackVia: real = true hands the responses to lindb's real task manager (Receive ->
+// worker pool -> HandleResponse) instead of handling them on the sender's goroutine.
+func searchLoopbackVia(w *World, q *QueryDef, resp map[string]*protoCommonV1.TaskResponse, inline map[string]bool, rng *rand.Rand, real bool) *Result {
 	var targets []string
 	for t := range resp {
 		targets = append(targets, t)
 	}
-	mgr := &lbTaskMgr{}
-	tr := &lbTransport{mgr: mgr, resp: resp, inline: inline, rng: rng, total: len(targets)}
+	var mgr query.TaskManager = &lbTaskMgr{}
+	if real {
+		mgr = realTaskMgr()
+	}
+	tr := &lbTransport{recv: mgr, resp: resp, inline: inline, rng: rng, total: len(targets)}
 	ctx, cancel := context.WithTimeout(context.Background(), 3*time.Second)
 	defer cancel()
 	rs, err := query.MetricDataSearch(ctx, &models.ExecuteParam{Database: database, SQL: "q"}, q.statement(w), &query.SearchMgr{
@@ -127,12 +164,16 @@ func loopbackCase(c *core.Ctx, rng *rand.Rand) {
 	l.Receivers = 0
 	ref := runLayout(c, w, q, l, false, 0)
 	resp := map[string]*protoCommonV1.TaskResponse{}
+	emptyLeaf := ""
 	for _, leaf := range l.Leaves {
 		rs, err := RunLeaf(w, q, leaf, []string{"root"})
 		if err != nil {
 			panic(err)
 		}
 		resp[leaf.Name] = rs[0]
+		if !leaf.NoMetric && len(writtenFields(w, leaf)) == 0 {
+			emptyLeaf = leaf.Name
+		}
 	}
 	withErr := rng.Intn(5) == 0
 	if withErr {
@@ -150,13 +191,23 @@ func loopbackCase(c *core.Ctx, rng *rand.Rand) {
 			// (a failing node answering in-line is the dedicated witness case)
 			inline[n] = n != "failing" && rng.Intn(2) == 0
 		}
-		got := searchLoopback(w, q, resp, inline, rng)
-		sched := fmt.Sprintf("answered inside SendRequest: %v", inline)
+		real := rep == 2
+		got := searchLoopbackVia(w, q, resp, inline, rng, real)
+		sched := fmt.Sprintf("answered inside SendRequest: %v, real task manager: %v", inline, real)
+		if real && got.Err == "pending" && ref.res.Err == "" && emptyLeaf != "" {
+			c.Fail("empty-leaf-turns-answer-into-timeout",
+				fmt.Sprintf("leaf %s knows the metric, has no matching series and answers successfully; through taskManager.Receive the query ends with the deadline instead of %q", emptyLeaf, ref.res.answerLine()))
+			continue
+		}
 		if withErr {
 			if got.Err != "error" {
 				c.Fail("failing-node-not-reported",
 					fmt.Sprintf("%s: one node answers with an error after the plan completed, the search returns %q / %s", sched, got.Err, got.rowsLine()))
 			}
+			continue
+		}
+		if got.Err == "pending" && ref.res.Err == "" {
+			c.Fail("answer-turns-into-timeout", fmt.Sprintf("%s: every target answered, the real search ends with the deadline instead of %q", sched, ref.res.answerLine()))
 			continue
 		}
 		if got.Err != ref.res.Err || got.answerLine() != ref.res.answerLine() {
@@ -262,4 +313,147 @@ func fixedLimitSpread(c *core.Ctx) {
 		}
 	}
 	c.NonTrivial()
+}
+
+// fixed case: three leaves, one of which knows the metric, has NO matching series and answers
+// successfully (empty answer). Its answer must be counted: through lindb's real task manager
+// (Receive -> pool -> HandleResponse) the real search gives the answer of the two others, in every
+// arrival order — "a node that holds no matching data never turns a non-empty answer into an
+// error".
+func fixedEmptyLeafCounts(c *core.Ctx) {
+	w := twoSeriesWorld(field.SumField)
+	w.Points = []Point{{0, 0, 1, 5}, {1, 0, 1, 7}}
+	q := &QueryDef{Selects: []SelectDef{{"f1", function.Unknown}}, NumSlots: 4, Limit: 100, ftypes: ftypesOf(w)}
+	leaves := []*LeafDef{
+		{Name: "leafA", Shards: [][]int{{0}}, KnownFields: []int{0}},
+		{Name: "leafB", Shards: [][]int{{1}}, KnownFields: []int{0}},
+		{Name: "leafC", KnownFields: []int{0}}, // metric and field known, no series
+	}
+	ref := runLayout(c, w, q, reference(w), true, 0)
+	resp := map[string]*protoCommonV1.TaskResponse{}
+	for _, leaf := range leaves {
+		rs, err := RunLeaf(w, q, leaf, []string{"root"})
+		if err != nil {
+			panic(err)
+		}
+		resp[leaf.Name] = rs[0]
+	}
+	rng := rand.New(rand.NewSource(7))
+	for _, inline := range []map[string]bool{{}, {"leafC": true}, {"leafA": true, "leafB": true}} {
+		got := searchLoopbackVia(w, q, resp, inline, rng, true)
+		if got.Err == "pending" {
+			c.Fail("empty-leaf-turns-answer-into-timeout",
+				fmt.Sprintf("leaves A, B have data, leaf C has no matching series and answers successfully (sent inside SendRequest: %v): the search ends with the deadline instead of %q", inline, ref.res.answerLine()))
+		} else if got.Err != "" || got.answerLine() != ref.res.answerLine() {
+			c.Fail("layout-changes-answer", fmt.Sprintf("through the real task manager: %q (%s) instead of %q", got.answerLine(), got.Err, ref.res.answerLine()))
+		}
+	}
+	c.NonTrivial()
+}
+
+// concurrentCase: the responses of k leaves are handed over AT ONCE by k goroutines (barrier),
+// directly to HandleResponse and through the real task manager's pool; moderately large payloads
+// (hundreds of groups), several trials. handleResponse is one critical section, so every trial
+// must give the answer of the sequential delivery.
+func concurrentCase(c *core.Ctx, rng *rand.Rand) {
+	nHosts := 120 + rng.Intn(120)
+	m := 3 + rng.Intn(4)
+	w := &World{TagKeys: []string{"host", "node"}, Fields: []FieldDef{{Name: "f1", Type: field.SumField}, {Name: "f2", Type: field.MaxField}}}
+	leaves := make([]*LeafDef, m)
+	for li := 0; li < m; li++ {
+		leaves[li] = &LeafDef{Name: fmt.Sprintf("leaf%d", li), KnownFields: []int{0, 1}, Shards: [][]int{nil}}
+	}
+	for h := 0; h < nHosts; h++ {
+		for li := 0; li < m; li++ {
+			if rng.Intn(4) == 0 {
+				continue
+			}
+			si := len(w.Series)
+			w.Series = append(w.Series, SeriesDef{Tags: []string{fmt.Sprintf("host%03d", h), fmt.Sprintf("n%d", li)}})
+			leaves[li].Shards[0] = append(leaves[li].Shards[0], si)
+			for s := 0; s < 3; s++ {
+				w.Points = append(w.Points, Point{Series: si, Field: rng.Intn(2), Slot: rng.Intn(5), Val: int64(1 + rng.Intn(50))})
+			}
+		}
+	}
+	q := &QueryDef{Selects: []SelectDef{{"f1", function.Unknown}, {"f2", function.Unknown}}, GroupBy: []int{0}, NumSlots: 5, Limit: 1 << 20, ftypes: ftypesOf(w)}
+	var names []string
+	var resps []*protoCommonV1.TaskResponse
+	for _, leaf := range leaves {
+		rs, err := RunLeaf(w, q, leaf, []string{"root"})
+		if err != nil {
+			panic(err)
+		}
+		names = append(names, leaf.Name)
+		resps = append(resps, rs[0])
+	}
+	seq, err := NewRoot(w, q, names)
+	if err != nil {
+		panic(err)
+	}
+	for i := range resps {
+		seq.Ctx.HandleResponse(resps[i], names[i])
+	}
+	want := seq.Finish()
+	c.Branch("concurrent")
+	for trial := 0; trial < 6; trial++ {
+		root, err := NewRoot(w, q, names)
+		if err != nil {
+			panic(err)
+		}
+		viaMgr := trial%2 == 1
+		id := fmt.Sprintf("conc-%d-%d", rng.Int63(), trial)
+		if viaMgr {
+			realTaskMgr().AddTask(id, root.Ctx)
+		}
+		start := make(chan struct{})
+		var wg sync.WaitGroup
+		for i := range resps {
+			wg.Add(1)
+			go func(i int) {
+				defer wg.Done()
+				r := *resps[i]
+				r.RequestID = id
+				<-start
+				if viaMgr {
+					_ = realTaskMgr().Receive(&r, names[i])
+				} else {
+					root.Ctx.HandleResponse(&r, names[i])
+				}
+			}(i)
+		}
+		close(start)
+		wg.Wait()
+		for k := 0; k < 50000; k++ { // the pool's workers finish asynchronously
+			if _, _, _, _, done := root.Ctx.VerifState(); done {
+				break
+			}
+			time.Sleep(100 * time.Microsecond)
+		}
+		if viaMgr {
+			realTaskMgr().RemoveTask(id)
+		}
+		got := root.Finish()
+		if got.Err != want.Err || got.answerLine() != want.answerLine() {
+			c.Fail("concurrent-delivery-changes-answer",
+				fmt.Sprintf("%d responses (%d groups) handed over at once (through the task manager: %v), trial %d: outcome %q, %d groups / sequential delivery: outcome %q, %d groups; first difference: %s",
+					len(resps), nHosts, viaMgr, trial, got.Err, len(got.Groups), want.Err, len(want.Groups), firstDiff(want, got)))
+			break
+		}
+	}
+	c.NonTrivial()
+}
+
+func firstDiff(a, b *Result) string {
+	var ts []string
+	for t := range a.Groups {
+		ts = append(ts, t)
+	}
+	sort.Strings(ts)
+	for _, t := range ts {
+		if fmt.Sprint(a.Groups[t]) != fmt.Sprint(b.Groups[t]) {
+			return fmt.Sprintf("group %s: %v vs %v", t, a.Groups[t], b.Groups[t])
+		}
+	}
+	return "group sets differ"
 }
